@@ -248,7 +248,7 @@ def _alias_strategy(tier, sc):
         else:
             d = 2 if sc.endswith("2d") else 3
             c["shape"] = draw(gen.grid_shape(d, 5, 9 if d == 2 else 6))
-            c["order"] = draw(st.integers(1, 3))
+            c["order"] = draw(st.sampled_from([1, 2, 3, 3, 4, 5]))  # the shipped examples use order 5
             c["ftype"] = draw(st.sampled_from(["multiplicative", "convolution"]))
             c["vector"] = draw(st.booleans())
             c["reset"] = draw(st.booleans())
